@@ -560,16 +560,16 @@ impl Encode for Dyn {
             },
             Ty::Un(u, _) => match u {
                 Un::Option => if let V::Opt(o) = &self.v { o.as_deref().cloned().encode(e, p, s) } else { Err(bad("Opt")) },
-                Un::Vec => self.seq()?.to_vec().encode(e, p, s),
-                Un::VecDeque => self.seq()?.iter().cloned().collect::<VecDeque<Dyn>>().encode(e, p, s),
-                Un::LinkedList => self.seq()?.iter().cloned().collect::<LinkedList<Dyn>>().encode(e, p, s),
+                Un::Vec => lay_vec(self.seq()?).encode(e, p, s),
+                Un::VecDeque => lay_deque(self.seq()?).encode(e, p, s),
+                Un::LinkedList => lay_list(self.seq()?).encode(e, p, s),
                 Un::BoxSlice => self.seq()?.to_vec().into_boxed_slice().encode(e, p, s),
                 Un::RcSlice => Rc::<[Dyn]>::from(self.seq()?.to_vec()).encode(e, p, s),
                 Un::ArcSlice => Arc::<[Dyn]>::from(self.seq()?.to_vec()).encode(e, p, s),
                 Un::Slice => { let sl: &[Dyn] = self.seq()?; <[Dyn] as Encode>::encode(sl, e, p, s) }
-                Un::BTreeSet => self.seq()?.iter().cloned().collect::<BTreeSet<Dyn>>().encode(e, p, s),
-                Un::HashSet => self.seq()?.iter().cloned().collect::<HashSet<Dyn>>().encode(e, p, s),
-                Un::HashSetFx => self.seq()?.iter().cloned().collect::<HashSet<Dyn, FxBuildHasher>>().encode(e, p, s),
+                Un::BTreeSet => lay_order(self.seq()?).into_iter().collect::<BTreeSet<Dyn>>().encode(e, p, s),
+                Un::HashSet => lay_hashset::<std::collections::hash_map::RandomState>(self.seq()?).encode(e, p, s),
+                Un::HashSetFx => lay_hashset::<FxBuildHasher>(self.seq()?).encode(e, p, s),
                 Un::DashSet => self.seq()?.iter().cloned().collect::<DashSet<Dyn>>().encode(e, p, s),
                 Un::Box => Box::new(self.seqn(1)?[0].clone()).encode(e, p, s),
                 Un::Rc => Rc::new(self.seqn(1)?[0].clone()).encode(e, p, s),
@@ -643,8 +643,8 @@ impl Encode for Dyn {
                     if *i == 0 { Ok::<Dyn, Dyn>(f[0].clone()).encode(e, p, s) } else { Err::<Dyn, Dyn>(f[0].clone()).encode(e, p, s) }
                 } else { Err(bad("Result")) },
                 Bin::BTreeMap => self.map()?.iter().cloned().collect::<BTreeMap<Dyn, Dyn>>().encode(e, p, s),
-                Bin::HashMap => self.map()?.iter().cloned().collect::<HashMap<Dyn, Dyn>>().encode(e, p, s),
-                Bin::HashMapFx => self.map()?.iter().cloned().collect::<HashMap<Dyn, Dyn, FxBuildHasher>>().encode(e, p, s),
+                Bin::HashMap => lay_hashmap::<std::collections::hash_map::RandomState>(self.map()?).encode(e, p, s),
+                Bin::HashMapFx => lay_hashmap::<FxBuildHasher>(self.map()?).encode(e, p, s),
                 Bin::DashMap => self.map()?.iter().cloned().collect::<DashMap<Dyn, Dyn>>().encode(e, p, s),
                 Bin::Gs2 => { let k = self.seqn(2)?; GS2 { t: k[0].clone(), u: k[1].clone(), z: "junk".into() }.encode(e, p, s) }
                 Bin::Ge2 => if let V::Variant(i, f) = &self.v {
@@ -1613,9 +1613,13 @@ pub fn run_behaviour(pool_spec: &[J], ops: &[J], seed: u64) -> J {
             "enc" => {
                 let i = op["v"].as_u64().unwrap_or(0) as usize;
                 let Some(Some(v)) = pool.get(i.wrapping_sub(1)) else { return json!({"ok": false, "tool_error": format!("enc of unavailable pool value {}", i)}); };
+                // the representation the value is encoded from (see "Layouts"); ops without the field: op index
+                let lay = (op["lay"].as_u64().unwrap_or(si as u64) + seed) % 3;
+                set_layout(lay);
                 let (o, end, sr) = w.encode(v);
+                set_layout(0);
                 let ok = matches!(o, Outcome::Ok(()));
-                steps.push(json!({"op": "enc", "v": i, "end": end, "sr": sr, "ok": ok}));
+                steps.push(json!({"op": "enc", "v": i, "end": end, "sr": sr, "ok": ok, "lay": lay}));
                 if !ok {
                     fail = Some(json!({"step": si + 1, "kind": match o { Outcome::Panic(_) => "encode_panic", _ => "encode_error" }, "msg": format!("{:?}", o), "v": i, "ty": tys[i - 1].show(), "value": short_dbg(v)}));
                     break;
@@ -1680,6 +1684,86 @@ pub fn run_behaviour(pool_spec: &[J], ops: &[J], seed: u64) -> J {
         fail = Some(json!({"step": ops.len(), "kind": "final_pos", "pos": w.rpos.get(), "len": w.len()}));
     }
     json!({"ok": fail.is_none(), "steps": steps, "fail": fail, "drift": drift, "bytes": w.len()})
+}
+
+
+// ---------------------------------------------------------------------------
+// Layouts.  The abstract value of a container (V::Seq / V::Set / V::Map) does
+// not say how the concrete Rust value was built, and the round trip must not
+// depend on it: a VecDeque whose ring buffer has wrapped, a HashMap filled in
+// another order into a larger table, a Vec with spare capacity are all the
+// same value.  Every "enc" op of a behaviour carries a layout index (field
+// `lay` of the op, chosen in Codec.tla; shifted by the seed); the concrete
+// containers of that encode are built accordingly:
+//   0  collect() from the elements in order (contiguous, exact capacity)
+//   1  built by a history: ring buffer filled from both ends (front half by
+//      push_front), hash tables over-sized and filled in reverse order,
+//      linked lists grown at the head
+//   2  ring buffer whose head was moved by queue traffic before the elements
+//      were pushed (wraps at the end of the allocation), hash tables filled
+//      in order and then shrunk
+// ---------------------------------------------------------------------------
+thread_local! {
+    static LAYOUT: std::cell::Cell<u64> = const { std::cell::Cell::new(0) };
+}
+/// number of VecDeque values handed to the encoder whose ring buffer was wrapped (anti-vacuity, evidence)
+pub static WRAPPED_DEQUES: std::sync::atomic::AtomicU64 = std::sync::atomic::AtomicU64::new(0);
+pub fn set_layout(l: u64) { LAYOUT.with(|c| c.set(l % 3)); }
+pub fn layout() -> u64 { LAYOUT.with(|c| c.get()) }
+
+pub fn deque_with_layout<T: Clone>(items: &[T], lay: u64) -> VecDeque<T> {
+    let n = items.len();
+    let d = match lay % 3 {
+        0 => items.iter().cloned().collect::<VecDeque<T>>(),
+        1 => {
+            let mut d = VecDeque::with_capacity(n);
+            let h = n / 2;
+            for x in items[h..].iter() { d.push_back(x.clone()); }
+            for x in items[..h].iter().rev() { d.push_front(x.clone()); }
+            d
+        }
+        _ => {
+            let mut d = VecDeque::with_capacity(n);
+            if n > 0 {
+                // queue traffic: move the head into the middle of the allocation
+                let k = d.capacity() - (n / 2).max(1).min(d.capacity());
+                for _ in 0..k { d.push_back(items[0].clone()); }
+                for _ in 0..k { d.pop_front(); }
+                for x in items { d.push_back(x.clone()); }
+            }
+            d
+        }
+    };
+    debug_assert!(d.iter().count() == n);
+    if !d.as_slices().1.is_empty() { WRAPPED_DEQUES.fetch_add(1, std::sync::atomic::Ordering::Relaxed); }
+    d
+}
+fn lay_deque(items: &[Dyn]) -> VecDeque<Dyn> { deque_with_layout(items, layout()) }
+fn lay_list(items: &[Dyn]) -> LinkedList<Dyn> {
+    if layout() == 0 { items.iter().cloned().collect() } else { let mut l = LinkedList::new(); for x in items.iter().rev() { l.push_front(x.clone()); } l }
+}
+fn lay_vec(items: &[Dyn]) -> Vec<Dyn> {
+    if layout() == 0 { items.to_vec() } else { let mut v = Vec::with_capacity(2 * items.len() + 8); v.extend(items.iter().cloned()); v }
+}
+/// insertion order of ordered sets (the tree is built by another history, the value is the same)
+fn lay_order(items: &[Dyn]) -> Vec<Dyn> {
+    let mut v = items.to_vec();
+    if layout() == 1 { v.reverse(); }
+    v
+}
+fn lay_hashset<S: std::hash::BuildHasher + Default>(items: &[Dyn]) -> HashSet<Dyn, S> {
+    match layout() {
+        0 => items.iter().cloned().collect(),
+        1 => { let mut h = HashSet::with_capacity_and_hasher(4 * items.len() + 16, S::default()); for x in items.iter().rev() { h.insert(x.clone()); } h }
+        _ => { let mut h = HashSet::with_capacity_and_hasher(8 * items.len() + 64, S::default()); for x in items { h.insert(x.clone()); } h.shrink_to_fit(); h }
+    }
+}
+fn lay_hashmap<S: std::hash::BuildHasher + Default>(items: &[(Dyn, Dyn)]) -> HashMap<Dyn, Dyn, S> {
+    match layout() {
+        0 => items.iter().cloned().collect(),
+        1 => { let mut h = HashMap::with_capacity_and_hasher(4 * items.len() + 16, S::default()); for (k, v) in items.iter().rev() { h.insert(k.clone(), v.clone()); } h }
+        _ => { let mut h = HashMap::with_capacity_and_hasher(8 * items.len() + 64, S::default()); for (k, v) in items { h.insert(k.clone(), v.clone()); } h.shrink_to_fit(); h }
+    }
 }
 
 // ---------------------------------------------------------------------------
@@ -1768,7 +1852,7 @@ impl Arb for Box<str> { fn arb(r: &mut Rng, d: u32) -> Self { String::arb(r, d).
 impl Arb for UnitS { fn arb(_r: &mut Rng, _d: u32) -> Self { UnitS } }
 fn arb_len(r: &mut Rng, d: u32) -> usize { if d == 0 { [0usize, 1, 2, 127, 128, 129][r.below(6) as usize] } else { r.below(4) as usize } }
 impl<T: Arb> Arb for Vec<T> { fn arb(r: &mut Rng, d: u32) -> Self { (0..arb_len(r, d)).map(|_| T::arb(r, d + 1)).collect() } }
-impl<T: Arb> Arb for VecDeque<T> { fn arb(r: &mut Rng, d: u32) -> Self { Vec::<T>::arb(r, d).into() } }
+impl<T: Arb + Clone> Arb for VecDeque<T> { fn arb(r: &mut Rng, d: u32) -> Self { let v = Vec::<T>::arb(r, d); let l = r.below(3); deque_with_layout(&v, l) } }
 impl<T: Arb> Arb for LinkedList<T> { fn arb(r: &mut Rng, d: u32) -> Self { Vec::<T>::arb(r, d).into_iter().collect() } }
 impl<T: Arb> Arb for Box<[T]> { fn arb(r: &mut Rng, d: u32) -> Self { Vec::<T>::arb(r, d).into_boxed_slice() } }
 impl<T: Arb + Ord> Arb for BTreeSet<T> { fn arb(r: &mut Rng, d: u32) -> Self { Vec::<T>::arb(r, d).into_iter().collect() } }
